@@ -15,6 +15,7 @@
 import concurrent.futures
 import json
 import os
+import re
 
 from .. import common
 from ..common import log
@@ -105,6 +106,27 @@ FAIL_PREDS = [
     ("assume-6809", ["\tcpu 6809", "\tassume dpr:$12", "\tlda $1234"]),
     ("title-page", ["\ttitle \"abc\"", "\tpage 20,80", "\tnewpage"]),
 ]
+
+# a successor that uses as many target-independent constructs as possible (conditional assembly incl. SWITCH/CASE, macros, repetitions,
+# structures, sections, functions, strings, character sets, listing control): a hook or flag that a predecessor's code generator
+# installed in the core (instruction-name overrides, operand-syntax switches ...) and that is not taken back shows here
+RICH_SUCC = ("succ-rich", [
+    "\tcpu z80", "\torg 100h", "sel\tequ 2",
+    "\tswitch sel", "\tcase 1", "\tdb 11h", "\tcase 2,3", "\tdb 22h", "\telsecase", "\tdb 33h", "\tendcase",
+    "\tif sel=2", "\tdb 44h", "\telseif sel=3", "\tdb 45h", "\telse", "\tdb 46h", "\tendif",
+    "\tifdef sel", "\tdb 47h", "\tendif", "\tifndef nosuch", "\tdb 48h", "\tendif",
+    "mm\tmacro a,b=7", "\tdb a,b", "\tendm", "\tmm 1", "\tmm 2,3",
+    "\trept 2", "\tdb 55h", "\tendm", "\tirp v,1,2", "\tdb v", "\tendm", "\tirpc c,\"ab\"", "\tdb 'c'", "\tendm",
+    "cnt\tset 0", "\twhile cnt<2", "\tdb cnt", "cnt\tset cnt+1", "\tendm",
+    "rec\tstruct", "f1\tdb ?", "f2\tdw ?", "rec\tendstruct", "\tdb rec_len,rec_f2",
+    "\tsection s1", "loc:\tnop", "\tpublic glo", "glo:\tnop", "\tendsection", "\tdw glo",
+    "dbl\tfunction x,x*2", "\tdb dbl(21)", "\tdb strlen(\"abc\"),upstring(\"a\")=\"A\"",
+    "\tcharset 'a','c',1", "\tdb \"abc\"", "\tcharset",
+    "\tlisting off", "\tdb 66h", "\tlisting on", "\tpage 60", "\ttitle \"t\"",
+    "\tpushv ,cnt", "cnt\tset 9", "\tpopv ,cnt", "\tdb cnt",
+    "\tsave", "\tcpu 8080", "\tmvi a,1", "\trestore", "\tld a,2",
+    "\tphase 8000h", "ph:\tjr ph", "\tdephase", "\talign 4", "\tdb 77h", "\tds 2", "\tdb 88h",
+    "\tmessage \"v=\\{sel}\"", "\tend 100h"])
 
 # successors that read generic core state
 CORE_SUCC = [
@@ -714,6 +736,30 @@ def run(args):
                                           why="one forced further pass changes the result of a single file (state set by the last statements survives into the next pass)",
                                           source=tl, env="ASL_VERIF_EXTRA_PASSES=1", without=[r0[0], r0[1].decode(errors='replace'), _payload(r0[3])],
                                           with_extra_pass=[r1[0], r1[1].decode(errors='replace'), _payload(r1[3])]))
+
+        # ---------------- every code generator as a bare predecessor (`cpu <name>` + one harmless statement) x the rich core successor
+        rs = gen_single(*RICH_SUCC)
+        dist["rich_successor_alone_rc"] = rs[0]
+        dist["cpu_pred_pairs"] = 0
+        seen_cpu = set()
+        for g in gens:
+            for nm in (list(g["cpuNames"]) + list(g["cpuCandidates"]))[: (1 if quick else 4)]:
+                if nm in seen_cpu:
+                    continue
+                seen_cpu.add(nm)
+                pl = ["\tcpu " + nm, "lcp:", "\tif 0", "\tendif"]
+                ps = gen_single("cpu_" + re.sub(r"[^A-Za-z0-9]", "_", nm), pl)
+                if ps[0] != 0:
+                    continue
+                r = run_joint(bdir, wd, "g", [("cpup", pl), RICH_SUCC])
+                evaluations += 1
+                dist["cpu_pred_pairs"] += 1
+                distinct.add("cpupred:" + nm)
+                d = compare_joint([ps, rs], (r[0], r[1], r[2], r[3]))
+                if d:
+                    spec_fail.append(dict(tag="cpupred:%s+succ-rich" % nm, sig="cpu-switch-leaves-core-hook:%s" % g["file"],
+                                          why="selecting CPU %s in a predecessor changes the result of a later Z80 file: %s" % (nm, d),
+                                          sources=[("cpup", pl), RICH_SUCC]))
 
         # ---------------- one setter per inventory variable x golden successors of the same target family
         setters = find_setters(bdir, wd, gens)
